@@ -236,6 +236,16 @@ NFC_TREE = {"caf\u00e9.py": harness.py_function("nfc_spelling", 6), "cafe\u0301.
             "s/caf\u00e9.js": harness.js_function("nfcJs", 4), "s/cafe\u0301.js": harness.js_function("nfdJs", 5)}
 
 
+# languages that share bytes or depend on their neighbours: a header next to C and C++ sources (its content is measured differently
+# by the two languages: only C++ reports the macro-loop body as a nested unit) and byte-identical twins under two languages
+_LIST_H = ("int list_sum(struct list *head)\n{\n    int s = 0;\n    list_for_each(pos, head) {\n        s += pos->v;\n        s += 1;\n    }\n"
+           "    return s;\n}\n")
+_TYPED = "function area(w: number): number {\n  return w;\n}\nfunction plain(w) {\n  return w;\n}\n"
+MIX_TREE = {"inc/list.h": _LIST_H, "src/m.cpp": "int m(int a) {\n  return a;\n}\n", "src/n.c": "int n(int a) {\n  return a;\n}\n",
+            "twin/pick.js": _TYPED, "twin/pick.ts": _TYPED, "abi/check.c": _LIST_H, "abi/check.cpp": _LIST_H}
+WALK_TREES = {"main": WALK_TREE, "nfc": NFC_TREE, "mix": MIX_TREE}
+
+
 class WalkOracle:
     """choice points are keyed by (directory, 'dirs'|'files'); plan maps key -> permutation index"""
 
@@ -551,9 +561,9 @@ def _block(block, agg):
         for kd, sig, extra, d in viol:
             agg.violation(kd, sig, dict(case, **extra), d)
     elif kind == "walk":
-        tree = NFC_TREE if block[2] == 0 else WALK_TREE
-        viol, n_orders = explore_walk(tree, agg, block[1], max(1, block[2]))
-        case = {"part": "walk", "shard": block[1], "of": block[2]}
+        tname = block[3] if len(block) > 3 else ("nfc" if block[2] == 0 else "main")
+        viol, n_orders = explore_walk(WALK_TREES[tname], agg, block[1], max(1, block[2]))
+        case = {"part": "walk", "shard": block[1], "of": block[2], "tree": tname}
         agg.case(case, True, f"{n_orders} distinct listing orders", sample=True)
         for kd, sig, extra, d in viol:
             agg.violation(kd, sig, dict(case, **extra), d)
@@ -603,7 +613,8 @@ def replay(case):
         viol = explore_consume_order(case["language"], agg)
         return [{"kind": k, "sig": s, "detail": d} for k, s, _, d in viol]
     if case["part"] == "walk":
-        viol, _ = explore_walk(NFC_TREE if case.get("of") == 0 else WALK_TREE, agg, case.get("shard", 0), max(1, case.get("of", 1)))
+        tname = case.get("tree") or ("nfc" if case.get("of") == 0 else "main")
+        viol, _ = explore_walk(WALK_TREES[tname], agg, case.get("shard", 0), max(1, case.get("of", 1)))
         return [{"kind": k, "sig": s, "detail": d} for k, s, _, d in viol]
     if case["part"] == "history":
         viol, _ = eval_history(case["seq"], reference_results())
@@ -615,7 +626,7 @@ def replay(case):
 def run(ctx: core.Ctx):
     k = ctx.pick(1, 2)
     hist_len = ctx.pick(2, 3)
-    ctx.bounds = {"per_call_deviation_bound": k, "history_max_length": hist_len, "history_menu": menu_size(), "walk_tree": sorted(WALK_TREE),
+    ctx.bounds = {"per_call_deviation_bound": k, "history_max_length": hist_len, "history_menu": menu_size(), "walk_tree": sorted(WALK_TREE), "walk_tree_mixed_languages": sorted(MIX_TREE),
                   "probes_per_language": len(probes("Python"))}
     ctx.rule = ("states = distinct explored choice assignments (predicate-order plans, walk plans) + distinct global-state fingerprints seen in histories; "
                 "transitions = real executions (one analysis / scan / history step each). case = (language, probe file) for orders, the tree for walks, a "
@@ -630,6 +641,8 @@ def run(ctx: core.Ctx):
     for sh in range(12):
         blocks.append(("walk", sh, 12))
     blocks.append(("walk", 0, 0))  # the NFC/NFD tree, all orders
+    for sh in range(4):
+        blocks.append(("walk", sh, 4, "mix"))  # header + C + C++ and byte-identical twins under two languages, all orders
     refs = reference_results()
     seqs = []
     for n in range(1, hist_len + 1):
